@@ -188,7 +188,7 @@ def run_case(case, ctx):
         if degree_changed:
             ctx.count("refused_degree_change")
         elif tol is None:
-            why = "weight-root" if "Zero division" in str(o.exc) else "other"
+            why = "weight-root" if ("Zero division" in str(o.exc) or "weights change sign" in str(o.exc)) else "other"
             ctx.check(False, f"remove:none-refused:{kind}:{why}", f"knot_remove(tolerance=None) raised {o.brief()}")
         elif removable:
             ctx.check(False, f"remove:refuses-removable:{kind}", f"exactly removable knots {case['nodes']} were refused: {o.brief()}", regime=regime, tol=tolarg)
